@@ -169,6 +169,8 @@ var properties = map[string][]harnessSpec{
 		{Name: "desc.VerifC17Diatonic", Marks: end},
 		// the key the pipeline's `write --key K` plays in is the key in force at each chord — also when it arrives on a rest
 		{Name: "play.VerifC01WriteSequence", Quick: map[string]int{"C01.maxInstances": 2}, Thorough: map[string]int{"C01.maxInstances": 3}, Marks: end},
+		// the fourteen chords are played by one process: what the dictionary answers for a listed symbol must not depend on the symbols resolved before it
+		{Name: "chord.VerifC16LookupHistory", Quick: map[string]int{"C16.history": 2}, Thorough: map[string]int{"C16.history": 3}, Marks: end},
 	},
 	"C06": {
 		{Name: "midix.VerifC06AddStep", Quick: map[string]int{"C06.maxTracks": 8}, Thorough: map[string]int{"C06.maxTracks": 32}, Marks: end},
